@@ -101,6 +101,11 @@ func (r *Record) decode(pd packetDecoder) (err error) {
 		return err
 	}
 
+	if numHeaders > int64(pd.remaining()) {
+		// every header takes at least its two length bytes
+		return ErrInsufficientData
+	}
+
 	if numHeaders >= 0 {
 		r.Headers = make([]*RecordHeader, numHeaders)
 	}
